@@ -1,4 +1,5 @@
 """C19 — gaps, eps-coverage and eps-F1 vs the model and verified certificates."""
+import math
 import numpy as np
 from fractions import Fraction
 import common, gen, impl, algrun
@@ -9,7 +10,7 @@ TRUSTED_BASE = [
     "Coq 8.16.1 kernel (coqc); no native_compute; every C19 theorem: Closed under the global context",
     "hand-written model Metrics.v of get_smallmij / get_delta / the F1 arithmetic, tied by correspondence (alpha handed over as the exact rational of the library's float; results compared at relative 1e-12)",
     "eps-coverage: utils.is_covered (cvxpy SOCP, modelled) compared with verified certificates: a witness vector (pcov_witness_ok) or a weak-duality multiplier (pcov_far_ok), produced by an untrusted solve and checked exactly; instances within 1e-6 x scale of the boundary are skipped and counted",
-    "the hypervolume claim is not modelled (botorch's Hypervolume is an external oracle): not covered by this check",
+    "hypervolume clause: Hypervolume.v (grid-cell volume of the dominated region; front >= any subset proved); botorch's Hypervolume.compute is compared with the extracted grid hypervolume through calculate_hypervolume_discrepancy_for_model on finite-valued stub problems with exact dyadic facet values; that the grid volume is the Lebesgue volume is a modelling statement",
 ]
 ASSUMPTIONS = ["alpha_n is taken from the library (C17 checks it)"]
 
@@ -33,13 +34,70 @@ def cov_cert(W, vi, vj, eps):
     return nrm, u.value, lam
 
 
+def hypervolume_cases(ctx, viol, st):
+    """calculate_hypervolume_discrepancy_for_model driven by a finite-valued stub problem / model (every Sobol sample maps
+    to one of K designs; integer cones, dyadic values, so all facet values are exact): exp(result) must equal the
+    extracted hypervolume of the true front minus that of the true values at the predicted-front designs"""
+    import gen
+    from vopy.utils.evaluate import calculate_hypervolume_discrepancy_for_model
+    rng = ctx.rng
+    jobs = []
+    for _ in range(8 if ctx.quick else 80):
+        m = rng.choice([2, 2, 3])
+        cones = gen.CONES_2D if m == 2 else gen.CONES_3D
+        cn = rng.choice([c for c in cones if len(cones[c][0]) <= 3])
+        W = cones[cn][0]
+        K = rng.randint(3, 7)
+        Y = np.array([[rng.randint(-8, 8) / 4.0 for _ in range(m)] for _ in range(K)])
+        Yp = Y + np.array([[rng.choice([0, 0, 0.5, -0.5, 1.0, -1.5]) for _ in range(m)] for _ in range(K)])
+        order = impl.order_from_W(W)
+
+        class Prob:
+            in_dim = 1; out_dim = m
+            def evaluate(self, x, noisy=False, Y=Y, K=K):
+                return Y[np.minimum((np.asarray(x)[:, 0] * K).astype(int), K - 1)]
+
+        class Mdl:
+            def predict(self, x, Yp=Yp, K=K):
+                return Yp[np.minimum((np.asarray(x)[:, 0] * K).astype(int), K - 1)], None
+        try:
+            r = float(calculate_hypervolume_discrepancy_for_model(order, Prob(), Mdl())); got = math.exp(r)
+        except AssertionError:
+            got = None
+        except Exception as e:
+            viol.append({"signature": "hypervolume-raised", "message": f"calculate_hypervolume_discrepancy_for_model raised {type(e).__name__}: {str(e)[:100]}", "replay": {"kind": "hv", "cone": cn, "Y": Y.tolist(), "Yp": Yp.tolist()}})
+            continue
+        Wq = impl.frm(np.array(W, dtype=float))
+        fw = [[sum(F(w) * F(v) for w, v in zip(row, y)) for row in W] for y in Y.tolist()]
+        ref = [min(c) for c in zip(*fw)]
+        cuts = [sorted(set(c)) for c in zip(*fw)]
+        true = [int(i) for i in order.get_pareto_set(Y)]
+        pred = [int(i) for i in order.get_pareto_set(Yp)]
+        for tag, idx in (("front", true), ("pred", pred)):
+            jobs.append(f"hv {common.enc(cuts)} {common.enc(ref)} {common.enc([fw[i] for i in idx])}")
+        st["hv_jobs"].append((got, cn, Y.tolist(), Yp.tolist(), true, pred))
+    out = ctx.model(jobs)
+    for k, (got, cn, Yl, Ypl, true, pred) in enumerate(st.pop("hv_jobs")):
+        hf, hp = common.dec_q(common.dec(out[2 * k])), common.dec_q(common.dec(out[2 * k + 1]))
+        st["hypervolume"] += 1
+        rep = {"kind": "hv", "cone": cn, "Y": Yl, "Yp": Ypl}
+        if hp > hf:
+            viol.append({"signature": "hypervolume-front-not-maximal", "message": f"model hypervolume of the predicted subset {float(hp)} exceeds the front's {float(hf)} (cone {cn})", "replay": rep})
+        d = float(hf - hp)
+        if got is None:
+            if d > 1e-4 * (1 + 1e-9):
+                viol.append({"signature": "hypervolume-differs", "message": f"the library says the hypervolumes are the same but front - predicted = {d} (cone {cn}, values {Yl}, predicted {Ypl})", "replay": rep})
+        elif abs(got - d) > 1e-9 * max(1.0, d):
+            viol.append({"signature": "hypervolume-differs", "message": f"library hypervolume discrepancy {got}, definition {d} (cone {cn}, values {Yl}, predicted {Ypl}, front {true}, predicted front {pred})", "replay": rep})
+
+
 def run(ctx):
     from vopy.utils import get_smallmij, get_delta, is_covered, get_uncovered_size
     from vopy.utils.evaluate import calculate_epsilonF1_score
     rng = ctx.rng
     viol, lines, meta = [], [], []
     orders = impl.bundled_orders()
-    st = {"smallm": 0, "delta": 0, "covered_true": 0, "covered_false": 0, "covered_skipped": 0, "f1": 0}
+    st = {"smallm": 0, "delta": 0, "covered_true": 0, "covered_false": 0, "covered_skipped": 0, "f1": 0, "hypervolume": 0, "hv_jobs": []}
     n = 120 if ctx.quick else 1500
     for _ in range(n):
         name, order = rng.choice(orders)
@@ -70,14 +128,21 @@ def run(ctx):
         name, order = rng.choice(orders)
         W = order.ordering_cone.W; m = W.shape[1]
         vi = np.array([rng.randint(-8, 8) / 8.0 for _ in range(m)])
-        kind = rng.choice(["near", "near", "far", "same"])
+        kind = rng.choice(["near", "near", "far", "same", "within", "within"])
+        eps = rng.choice([0.0, 0.05, 0.1, 0.25, 0.5])
         if kind == "same":
             vj = vi.copy()
+        elif kind == "within":
+            # closer than eps in Euclidean distance, in a random direction: covered only if the part of the
+            # difference outside the cone can be lifted by a CONE vector of norm <= eps
+            eps = rng.choice([0.05, 0.1, 0.25, 0.5])
+            dvec = np.array([rng.gauss(0, 1) for _ in range(m)])
+            dvec = dvec / max(np.linalg.norm(dvec), 1e-9) * eps * rng.choice([0.5, 0.75, 0.9, 0.97])
+            vj = vi + np.round(dvec * 2 ** 20) / 2 ** 20
         elif kind == "near":
             vj = vi + np.array([rng.randint(-3, 3) / 16.0 for _ in range(m)])
         else:
             vj = np.array([rng.randint(-8, 8) / 8.0 for _ in range(m)])
-        eps = rng.choice([0.0, 0.05, 0.1, 0.25, 0.5])
         try:
             r = bool(is_covered(vi.copy(), vj.copy(), eps, W))
         except Exception as e:
@@ -106,13 +171,20 @@ def run(ctx):
             viol.append({"signature": "is_covered-differs", "message": f"utils.is_covered returned {r}; a verified {'witness' if want else 'duality multiplier'} shows it is {want}: cone {info[0]}, vi={info[1]}, vj={info[2]}, eps={info[3]}", "replay": {"kind": "cover", "info": info}})
     # F1 on injected datasets: recompute from the library's own components and from the definition
     import vopy.datasets.dataset as dsmod
-    for _ in range(25 if ctx.quick else 300):
-        name, order = rng.choice(orders)
-        W = order.ordering_cone.W; m = W.shape[1]
+    # the SAME value set is scored under two different cones of its dimension, one after the other in this
+    # process (a score must depend on the cone it is asked about, not on what was scored before)
+    f1_jobs = []
+    for _ in range(13 if ctx.quick else 150):
+        m = rng.choice([2, 2, 3])
         K = rng.randint(3, 9)
         Y = [[rng.randint(-16, 16) / 8.0 for _ in range(m)] for _ in range(K)]
         dname = algrun.make_ds([[k / 16.0, 0.5] for k in range(K)], Y)
         ds = getattr(dsmod, dname)()
+        same_dim = [o for o in orders if o[1].ordering_cone.W.shape[1] == m]
+        for name, order in rng.sample(same_dim, 2):
+            f1_jobs.append((name, order, Y, ds, K, m))
+    for name, order, Y, ds, K, m in f1_jobs:
+        W = order.ordering_cone.W
         true = [int(x) for x in order.get_pareto_set(np.array(Y))]
         mode = rng.choice(["exact", "subset", "superset", "random", "shuffled"])
         if mode == "exact":
@@ -145,9 +217,10 @@ def run(ctx):
         want = 2 * tp / (2 * tp + (len(pred) - tp) + unc) if (2 * tp + (len(pred) - tp) + unc) else float("nan")
         if not (np.isnan(want) and np.isnan(f)) and abs(f - want) > 1e-12:
             viol.append({"signature": "f1-formula", "message": f"F1={f} but 2tp/(2tp+fp+uncovered)={want} with tp={tp}, |pred|={len(pred)}, uncovered={unc}: {info}", "replay": {"kind": "f1", "info": info}})
+    hypervolume_cases(ctx, viol, st)
     total = sum(st.values())
     return {"evaluations": total, "distinct_nontrivial": st["smallm"] + st["covered_true"] + st["covered_false"] + st["f1"],
-            "rule": "value sets (2-9 points, dyadic, near-duplicates) x the 12 bundled cones: get_smallmij / get_delta against the extracted definitions (exact alpha rationals, 1e-11 relative); utils.is_covered against verified certificates (witness / weak-duality multiplier) for near / far / identical pairs and eps in {0,...,0.5}; calculate_epsilonF1_score: range, order independence, perfect prediction, monotonicity in eps, and the 2tp/(2tp+fp+unc) formula recomputed; non-trivial = compared cases",
+            "rule": "value sets (2-9 points, dyadic, near-duplicates) x the 12 bundled cones: get_smallmij / get_delta against the extracted definitions (exact alpha rationals, 1e-11 relative); utils.is_covered against verified certificates (witness / weak-duality multiplier) for near / far / identical pairs and eps in {0,...,0.5}; calculate_epsilonF1_score: range, order independence, perfect prediction, monotonicity in eps, and the 2tp/(2tp+fp+unc) formula recomputed; calculate_hypervolume_discrepancy_for_model on finite-valued stub problems against the extracted grid hypervolume (front minus predicted subset, and front >= subset); non-trivial = compared cases",
             "samples": [{"cone": "theta45", "vi": [1.0, 1.0], "vj": [1.06, 0.94], "eps": 0.1}], "violations": viol, "extra": st}
 
 
